@@ -80,15 +80,37 @@ Lemma seg_fail2 r l : forall ch,
   Some (mkCh (cConf1 ch) (cRev1 ch) (cSucc1 ch) (cFail1 ch) (cConf2 ch) (cRev2 ch) (cSucc2 ch) (cRen2 ch) (cFail2 ch ++ l)).
 Proof. seg l. Qed.
 
+Ltac simp := cbn [cConf1 cRev1 cSucc1 cFail1 cConf2 cRev2 cSucc2 cRen2 cFail2 no_changes app].
+
 (* buildContractState on the diffs of a block gives the block's StateChanges, with the
    previous revision numbers when reverting *)
 Lemma build_state_block (revert : bool) (b : block) :
   build_state revert (map diff1_of (evs1 b)) (map diff2_of (evs2 b)) = Some (changes_of revert b).
 Proof.
   unfold build_state, evs1, evs2. rewrite !map_app.
-  rewrite foldo_app, seg_conf1; cbv beta iota. rewrite foldo_app, seg_rev1; cbv beta iota.
-  rewrite foldo_app, seg_succ1; cbv beta iota. rewrite seg_fail1; cbv beta iota.
-  rewrite foldo_app, seg_conf2; cbv beta iota. rewrite foldo_app, seg_rev2; cbv beta iota.
-  rewrite foldo_app, seg_succ2; cbv beta iota. rewrite foldo_app, seg_ren2; cbv beta iota.
-  rewrite seg_fail2. reflexivity.
+  rewrite foldo_app, seg_conf1; cbv beta iota; simp.
+  rewrite foldo_app, seg_rev1; cbv beta iota; simp.
+  rewrite foldo_app, seg_succ1; cbv beta iota; simp.
+  rewrite seg_fail1; cbv beta iota; simp.
+  rewrite foldo_app, seg_conf2; cbv beta iota; simp.
+  rewrite foldo_app, seg_rev2; cbv beta iota; simp.
+  rewrite foldo_app, seg_succ2; cbv beta iota; simp.
+  rewrite foldo_app, seg_ren2; cbv beta iota; simp.
+  rewrite seg_fail2; simp. reflexivity.
+Qed.
+
+(** * the store-level operation of a batch issues exactly the manager's calls *)
+Definition op_calls (revs : list (idx * changes)) (apps : list (idx * changes * option N)) : list call :=
+  map (fun r => CRevert (fst (fst r))) revs ++
+  flat_map (fun a => CApply (fst (fst (fst a))) ::
+                     match snd a with Some hm => [CReject hm] | None => [] end) apps.
+
+Lemma batch_calls buffer (R A : list block) :
+  op_calls (map rev_of R) (map (app_of buffer) A) =
+  manager_calls buffer (map bheight R) (map bheight A).
+Proof.
+  unfold op_calls, manager_calls. f_equal.
+  - rewrite !map_map. reflexivity.
+  - induction A as [|b t IH]; cbn [map flat_map]; [reflexivity|]. rewrite IH. f_equal.
+    unfold app_of, rej_arg, bheight. cbn [fst snd]. destruct (buffer <=? fst (bidx b)); reflexivity.
 Qed.
